@@ -79,7 +79,17 @@ def check_case(sg, rep, o, seed, big):
                 if us and any(abs(abs(x[1]) - bound) > 1e-9 or abs(x[2] - bound) > 1e-9 for x in us):
                     rep.violation(key + ":scale", "%s initialises with uniform%s, documented bound %s" % (f, us, bound), o)
                 break
+            # (the usual idiom for re-initialising parameters: inside the caller's no_grad block)
             t = sg.Tensor(np.full(tuple(c["shape"]), 9.0, dtype=dtype), requires_grad=rg)
+            tn = sg.Tensor(np.full(tuple(c["shape"]), 9.0, dtype=dtype), requires_grad=rg)
+            try:
+                with sg.no_grad():
+                    rn = call_init(sg, c, tn)
+                if rn is not tn or tn.shape != t.shape or tn.data.dtype != dtype or bool(tn.requires_grad) != rg:
+                    rep.violation(key + ":frame:inside-no_grad", "%s called inside no_grad changed identity/shape/dtype/requires_grad: %s %s requires_grad=%s (was %s)" % (
+                        f, tn.shape, tn.data.dtype, tn.requires_grad, rg), o)
+            except Exception as ex:  # noqa: BLE001
+                rep.violation(key + ":raised-inside-no_grad:" + type(ex).__name__, "%s on shape %s inside no_grad raised %s: %s" % (f, c["shape"], type(ex).__name__, str(ex)[:100]), o)
             ident, shape0 = id(t), t.shape
             np.random.seed(seed)
             with Capture() as cap:
